@@ -122,13 +122,15 @@ Fixpoint plan_calls (s : nat) (steps : list bool) : list call :=
   | b :: r => step_calls s b ++ plan_calls (S s) r
   end.
 
-(* a linear plan: calls happen in order, the first exception ends the run (flag true = run failed) *)
-Fixpoint run_calls (order : list extender) (cs : list call) : list (call * list event) * bool :=
+(* a linear plan: calls happen in order, the first exception ends the run (flag true = run failed);
+   fails c = the wrapped function of call c raises *)
+Definition call_result (fails : call -> bool) (c : call) : result unit := if fails c then Err WrappedExn else Ok tt.
+Fixpoint run_calls (order : list extender) (fails : call -> bool) (cs : list call) : list (call * list event) * bool :=
   match cs with
   | [] => ([], false)
   | c :: r =>
-      match run_wrapped (kind_hook (snd c)) order (wrapped (Ok tt)) with
-      | (t, Ok _) => let (l, fl) := run_calls order r in ((c, t) :: l, fl)
+      match run_wrapped (kind_hook (snd c)) order (wrapped (call_result fails c)) with
+      | (t, Ok _) => let (l, fl) := run_calls order fails r in ((c, t) :: l, fl)
       | (t, Err _) => ([(c, t)], true)
       end
   end.
